@@ -112,6 +112,32 @@ def check_roundtrip(spec, ctx):
     with_seq = parent is not None and spec.get("genome") is not None
     if spec.get("seqless"):
         ctx.label("sequence_less_parent", "sequence_less_parent:" + "+".join(sorted(k for k, v in spec["seqless"].items() if v)))
+    if spec.get("derive_first"):
+        # a caller derives a modified copy from an export it edits IN PLACE (identifiers dropped so that they are recomputed, a
+        # qualifier added, UUIDs turned into strings for json.dumps); the untouched original must round-trip as before
+        ctx.label("caller_edited_an_earlier_export")
+
+        def edit(d):
+            if isinstance(d, dict):
+                for k_ in list(d):
+                    v_ = d[k_]
+                    if isinstance(v_, (dict, list)):
+                        edit(v_)
+                    elif k_.endswith("_guid") or k_ == "guid":
+                        d[k_] = None
+                    elif isinstance(v_, str) and (k_.endswith("_symbol") or k_.endswith("_name") or k_ == "name"):
+                        d[k_] = v_ + "_copy"
+                if "qualifiers" in d:
+                    d["qualifiers"] = dict(d["qualifiers"] or {}, derived=["yes"])
+            elif isinstance(d, list):
+                for v_ in d:
+                    edit(v_)
+        d0 = x.to_dict()
+        edit(d0)
+        try:
+            CLS[kind].from_dict(d0, parent_of(spec))
+        except Exception:
+            pass
     # dictionary export/import
     y = CLS[kind].from_dict(copy.deepcopy(x.to_dict()), parent_of(spec))
     same_object(ctx, "dict_roundtrip", x, y, with_seq)
@@ -315,6 +341,7 @@ def strat_obj(draw, tier="quick", kinds=("collection", "collection", "collection
         w_lo, w_hi = (sp["chunk"] if sp.get("chunk") else (0, hi + 6 if mode in ("none", "seqless") else len(sp["genome"])))
         o["start"] = draw(st.integers(w_lo, max(w_lo, lo_m)))
         o["end"] = draw(st.integers(hi, max(hi, w_hi)))
+    sp["derive_first"] = draw(st.integers(0, 2)) == 0
     return sp
 
 
